@@ -117,6 +117,7 @@ fn main() {
                     v["repeat_same"] = json!(all_same);
                 }
                 writeln!(out, "{}", v).unwrap();
+                out.flush().unwrap();
             }
         },
         "extract" => {
